@@ -523,6 +523,23 @@ def rule_r5(ctx):
                           and isinstance(getattr(x.stmt, "value", None), ast.Constant) and x.stmt.value.value is None}
                 released = any(isinstance(c.func, ast.Attribute) and c.func.attr == "release" and norm(c.func.value) == f.params[0] for c in calls_in(f))
                 ok = released or resets >= {"raw", "_array"}
+                # the mapping is dropped whenever the stored value changes: the resets are unconditional, or guarded by nothing but
+                # the inequality of the raw old and new values (os.fspath at most) - a comparison of *normalised* spellings
+                # (normpath, abspath, lower …) calls `""` and `"."`, or `d` and `d/link/..`, the same directory
+                if ok:
+                    for x in field_writes(f):
+                        if x.field in ("raw", "_array") and isinstance(getattr(x.stmt, "value", None), ast.Constant):
+                            p_ = getattr(x.stmt, "_parent", None)
+                            while p_ is not None and p_ is not f.node:
+                                if isinstance(p_, ast.If):
+                                    t = p_.test
+                                    plain = isinstance(t, ast.Compare) and len(t.ops) == 1 and isinstance(t.ops[0], (ast.NotEq, ast.IsNot)) and all(
+                                        isinstance(sd, (ast.Name, ast.Attribute)) or (isinstance(sd, ast.Call) and dotted_of(sd.func) == "os.fspath" and len(sd.args) == 1
+                                                                                     and isinstance(sd.args[0], (ast.Name, ast.Attribute)))
+                                        for sd in [t.left, t.comparators[0]])
+                                    if not plain:
+                                        ok = False
+                                p_ = getattr(p_, "_parent", None)
                 ctx.check("R5", f"{f.local}: storing {w.field} drops the mapped data", ok, f, w.stmt,
                           f"`{norm(w.stmt)}` changes what `path` denotes but keeps `raw` / `_array`: after a first read, numpy()/tobytes() go on returning "
                           "the bytes of the old location without a containment check against the new base directory (tofile() re-checks and disagrees)",
